@@ -419,7 +419,35 @@ func ruleTimer(r *core.Report, ruleID string) {
 		if cb == nil || pend == nil {
 			r.Fail("C07-TIMER: callback invocation or Timer.isPending not found in newTimer's fire routine")
 		} else {
-			before := !core.Reach(fire, nil, nil, isClear)[cb]
+			// a helper that reports true only after it cleared the flag (test-and-clear under the lock):
+			// the edge on which its result is true counts as cleared
+			clearingHelper := func(g *ssa.Function) bool {
+				if g == nil || !p.InModule(g) || g.Blocks == nil || g.Signature.Results().Len() != 1 {
+					return false
+				}
+				unclear := core.Reach(g, nil, nil, isClear)
+				some := false
+				for _, ret := range core.Returns(g) {
+					for _, v := range core.ReturnValues(ret, 0) {
+						if b, isK := core.ConstBool(v); isK && !b {
+							continue
+						}
+						some = true
+						if unclear[ret] {
+							return false
+						}
+					}
+				}
+				return some
+			}
+			clearedEdge := core.CutWhere(func(cond ssa.Value) int {
+				c, ok := cond.(*ssa.Call)
+				if ok && clearingHelper(core.StaticCallee(c.Common())) {
+					return 1
+				}
+				return 0
+			})
+			before := !core.Reach(fire, nil, clearedEdge, isClear)[cb]
 			r.Check(before, ruleID, "timer fire routine clears before the callback", p.Pos(cb.Pos()), "every path to the callback passes isPending = false", "the callback can run while the timer still counts as pending: a Reset made by the callback is indistinguishable from the old arming")
 			after := false
 			for in := range core.Reach(fire, cb, nil, nil) {
